@@ -818,6 +818,41 @@ def slice_range(vm, m, callee, args):
     return Ref(Cell(Seq(s_.items[lo:hi], 'slice')))
 
 
+@native(r' as Iterator>::take_while::<', 'Iterator::take_while(pred): the items before the first one failing pred (one fork per cut)')
+def it_take_while(vm, m, callee, args):
+    items, pan = it_items(vm, m, args[0])
+    if any(is_concrete_bool(c) is not True for c, _ in items):
+        raise Unsupported('take_while over a filtered stream')
+    preds = []
+    for _, x in items:
+        v, p = call_closure(vm, m, args[1], [Ref(Cell(x))])
+        preds.append(bool_(v))
+    alts = []
+    for k in range(len(preds) + 1):
+        cond = And([preds[i] for i in range(k)] + ([Not(preds[k])] if k < len(preds) else []))
+        alts.append((cond, (lambda m2, a2, k=k: Iter('owned', items=[x for _, x in items[:k]], pos=0))))
+    raise NativeFork(alts)
+
+
+@native(r' as Iterator>::last$', 'Iterator::last')
+def it_last(vm, m, callee, args):
+    items, pan = it_items(vm, m, args[0])
+    if any(is_concrete_bool(c) is not True for c, _ in items):
+        raise Unsupported('last over a filtered stream')
+    return some(items[-1][1]) if items else NONE()
+
+
+@native(r'^std::option::Option::<.*>::map_or::<', 'Option::map_or(default, f)')
+def opt_map_or(vm, m, callee, args):
+    o = dv(vm, args[0]) if isinstance(args[0], Ref) else args[0]
+    if not isinstance(o, Enum):
+        raise Unsupported('map_or on a symbolic Option')
+    if o.variant == 'None':
+        return args[1]
+    v, p = call_closure(vm, m, args[2], [o.fields[0]])
+    return v
+
+
 @native(r' as Iterator>::(find|any|all)::<', 'Iterator::find / any / all over a concrete-length stream (predicate evaluated on every element up to the first hit; one fork per outcome)')
 def it_find_any_all(vm, m, callee, args):
     kind = re.search(r'Iterator>::(find|any|all)::<', callee).group(1)
@@ -826,7 +861,7 @@ def it_find_any_all(vm, m, callee, args):
         raise Unsupported('%s over a filtered stream' % kind)
     preds = []
     for _, x in items:
-        v, p = call_closure(vm, m, args[1], [as_ref(x)] if kind == 'find' else [x])
+        v, p = call_closure(vm, m, args[1], [Ref(Cell(x))] if kind == 'find' else [x])
         preds.append(bool_(v) if kind != 'all' else Not(bool_(v)))
     alts = []
     for k in range(len(preds) + 1):
